@@ -275,15 +275,17 @@ Definition bcreate (b : builder) : option (list (key * cv)) :=
 Definition lang_kind_of (l : key) : lang_kind :=
   if str_eqb l [99; 112; 112] then LkCpp else if str_eqb l [112; 121] then LkPy else LkBase.
 
-(* create() as a state change of the builder: the LanguageConfig is updated in place, then the target
-   Language is constructed (its options dict, which lives inside the config, is validated in place).
-   Result: (builder afterwards, Some options of the target language | None = create raised). *)
-Definition bcreate_st (b : builder) : builder * option (list (key * cv)) :=
+(* create() as a state change of the builder: the overrides are merged into the builder's LanguageConfig in place; the
+   target Language is constructed on the configuration the context will hold and validates its options dict in place
+   there.  detach = Gen_C13.create_detaches_config: false = that configuration IS the builder's object, true = it is a
+   deep copy taken after the merge.
+   Result: (builder afterwards, sections the new context holds, Some options of the target language | None = create raised). *)
+Definition bcreate_st (detach : bool) (b : builder) : builder * option (list (key * cv)) * option (list (key * cv)) :=
   match bcreate b, resolve_language b with
   | Some s, Some l =>
       let '(o, s') := language_init (lang_kind_of l) s (section_of l) in
-      ({| b_sections := Some s'; b_lang := b_lang b; b_over := b_over b |}, o)
-  | _, _ => (b, None)
+      ({| b_sections := Some (if detach then s else s'); b_lang := b_lang b; b_over := b_over b |}, Some s', o)
+  | _, _ => (b, None, None)
   end.
 
 Definition new_builder (builtin : list (key * cv)) : builder :=
@@ -325,13 +327,21 @@ Definition cli_ops (arg : key -> option atom) (files : list cv) : list bop :=
 
 (* ---- several builders in one process ------------------------------------------------------- *)
 
-(* A LanguageContext keeps a reference to its builder's LanguageConfig (LanguageContext(self._ln_loader.config, ...)):
-   what a context reports is the CURRENT content of that object.  Each LanguageContextBuilder() owns a fresh
-   LanguageClassLoader whose config is parsed anew from the packaged yaml, so distinct builders share nothing. *)
+(* What a LanguageContext reports is the CURRENT content of the LanguageConfig object it holds: the builder's own object
+   (CtxShared, create_detaches_config = false) or a private deep copy made by create() (CtxOwn).  Each LanguageContextBuilder()
+   owns a fresh LanguageClassLoader whose config is parsed anew from the packaged yaml, so distinct builders share nothing. *)
 Inductive pop :=
 | PNew                           (* LanguageContextBuilder() *)
 | POp (i : nat) (op : bop)       (* a builder call on builder i *)
 | PCreate (i : nat).             (* builder i .create() *)
+
+Inductive ctx :=
+| CtxShared (i : nat)
+| CtxOwn (s : list (key * cv)).
+
+Record proc := { p_builders : list builder; p_ctxs : list ctx }.
+
+Definition empty_proc : proc := {| p_builders := []; p_ctxs := [] |}.
 
 Fixpoint upd_nth {A : Type} (i : nat) (f : A -> A) (l : list A) : list A :=
   match l, i with
@@ -340,19 +350,43 @@ Fixpoint upd_nth {A : Type} (i : nat) (f : A -> A) (l : list A) : list A :=
   | x :: r, S i' => x :: upd_nth i' f r
   end.
 
-Definition papply (builtin : list (key * cv)) (p : list builder) (o : pop) : list builder :=
+Definition papply (detach : bool) (builtin : list (key * cv)) (p : proc) (o : pop) : proc :=
   match o with
-  | PNew => p ++ [new_builder builtin]
-  | POp i op => upd_nth i (fun b => bapply b op) p
-  | PCreate i => upd_nth i (fun b => fst (bcreate_st b)) p
+  | PNew => {| p_builders := p_builders p ++ [new_builder builtin]; p_ctxs := p_ctxs p |}
+  | POp i op => {| p_builders := upd_nth i (fun b => bapply b op) (p_builders p); p_ctxs := p_ctxs p |}
+  | PCreate i =>
+      match nth_error (p_builders p) i with
+      | None => p
+      | Some b =>
+          let '(b', cs, o) := bcreate_st detach b in
+          {| p_builders := upd_nth i (fun _ => b') (p_builders p);
+             p_ctxs := match cs, o with
+                       | Some s, Some _ => p_ctxs p ++ [if detach then CtxOwn s else CtxShared i]
+                       | _, _ => p_ctxs p                 (* create raised: no context *)
+                       end |}
+      end
   end.
 
-Definition prun (builtin : list (key * cv)) (ops : list pop) (p : list builder) : list builder :=
-  fold_left (papply builtin) ops p.
+Definition prun (detach : bool) (builtin : list (key * cv)) (ops : list pop) (p : proc) : proc :=
+  fold_left (papply detach builtin) ops p.
 
-(* what a context created by builder i reports now *)
-Definition ctx_report (p : list builder) (i : nat) : option (option (list (key * cv))) :=
-  option_map b_sections (nth_error p i).
+(* what context c reports now (None: no such context; Some None: its builder's configuration is in an error state) *)
+Definition ctx_report (p : proc) (c : nat) : option (option (list (key * cv))) :=
+  match nth_error (p_ctxs p) c with
+  | Some (CtxOwn s) => Some (Some s)
+  | Some (CtxShared i) => option_map b_sections (nth_error (p_builders p) i)
+  | None => None
+  end.
 
 Definition pop_touches (i : nat) (o : pop) : bool :=
   match o with PNew => false | POp j _ => Nat.eqb i j | PCreate j => Nat.eqb i j end.
+
+(* the ops leave alone the builder whose configuration context c shares (vacuous for a context with its own copy) *)
+Definition ops_spare_ctx (p : proc) (c : nat) (ops : list pop) : bool :=
+  match nth_error (p_ctxs p) c with
+  | Some (CtxShared i) => Nat.ltb i (length (p_builders p)) && forallb (fun o => negb (pop_touches i o)) ops
+  | Some (CtxOwn _) => true
+  | None => false
+  end.
+
+Definition all_own (cs : list ctx) : bool := forallb (fun c => match c with CtxOwn _ => true | CtxShared _ => false end) cs.
